@@ -6,7 +6,10 @@ cd /repo || exit 2
 if ! git diff --quiet; then echo "repo dirty"; exit 2; fi
 git apply "$patch" || { echo "patch does not apply"; exit 2; }
 cd /verif
+cp -f evidence/$prop.json /tmp/evidence_$prop.bak 2>/dev/null
 ./check "$prop" --tier "$tier"; rc=$?
+cp -f evidence/$prop.json /tmp/evidence_seeded_$prop.json 2>/dev/null
+cp -f /tmp/evidence_$prop.bak evidence/$prop.json 2>/dev/null
 git -C /repo checkout -- . 
 git -C /repo clean -fdq -e target sentinel-core/tests 2>/dev/null
 echo "check exit code: $rc"
